@@ -263,7 +263,8 @@ struct V : RecursiveASTVisitor<V> {
     if (F->isDependentContext()) return true;
     if (F->doesThisDeclarationHaveABody() || seenLight.insert(F->getCanonicalDecl()).second) { if (!F->doesThisDeclarationHaveABody() || seenF.count(F) == 0) lightEntry(F); }
     if (!F->doesThisDeclarationHaveABody() || F->isDeleted() || F->isDefaulted()) return true;
-    if (!X.underRoot(F->getLocation())) return true;
+    // positive controls of zero-count rules live in the analysis unit itself (usa_control_*)
+    if (!X.underRoot(F->getLocation()) && F->getNameAsString().rfind("usa_control_", 0) != 0) return true;
     if (!seenF.insert(F).second) return true;
     FnExporter FE(X); fns.push_back(FE.function(F));
     return true;
